@@ -904,7 +904,7 @@ func (c *Conn) dispatch(fr *FrameHeader) bool {
 		// to the dynamic table are referred to by later responses.
 		if isHeader {
 			var de errHeaderDecoding
-			if err := c.readHeader(c.hdrBuf, nil); errors.As(err, &de) {
+			if err := c.readHeader(c.hdrBuf, nil, false); errors.As(err, &de) {
 				c.setLastErr(err)
 
 				return true
@@ -918,7 +918,7 @@ func (c *Conn) dispatch(fr *FrameHeader) bool {
 	// would wedge the RoundTrip that is waiting to take it back.
 	defer r.release()
 
-	err := c.readStream(fr, r.Response)
+	err := c.readStream(fr, r)
 	if err == nil {
 		if endStream {
 			c.finish(r, fr.Stream(), nil)
@@ -1522,11 +1522,14 @@ func (c *Conn) handlePing(ping *Ping) {
 	c.writeOut(fr)
 }
 
-func (c *Conn) readStream(fr *FrameHeader, res *fasthttp.Response) (err error) {
+func (c *Conn) readStream(fr *FrameHeader, r *Ctx) (err error) {
+	res := r.Response
+
 	switch fr.Type() {
 	case FrameHeaders, FrameContinuation:
 		// dispatch only gets here with the complete block in hdrBuf
-		err = c.readHeader(c.hdrBuf, res)
+		err = c.readHeader(c.hdrBuf, res, !r.gotHeaders)
+		r.gotHeaders = true
 	case FrameResetStream:
 		// The server gave up on the stream. Without this the request would sit
 		// there until MaxResponseTime, or forever if that check is disabled.
@@ -1573,11 +1576,16 @@ func (c *Conn) updateWindow(streamID uint32, size int) {
 // is waiting for the response; the block is decoded all the same. A field that
 // breaks the rules for a response does not stop the decoding either: the error
 // is reported once the whole block has been through the decoder.
-func (c *Conn) readHeader(b []byte, res *fasthttp.Response) error {
+//
+// first says that this is the block that opens the response, which has to
+// carry exactly one :status; any later block is a trailer and has none.
+func (c *Conn) readHeader(b []byte, res *fasthttp.Response, first bool) error {
 	var (
 		err     error
 		invalid error
 	)
+
+	statusSeen := false
 
 	hf := AcquireHeaderField()
 	defer ReleaseHeaderField(hf)
@@ -1616,6 +1624,16 @@ func (c *Conn) readHeader(b []byte, res *fasthttp.Response) error {
 				continue
 			}
 
+			// One :status, in the block that opens the response and nowhere
+			// else. A second one used to overwrite the first, and a response
+			// without any was delivered as a 200.
+			if statusSeen || !first {
+				reject(errInvalidStatus)
+				continue
+			}
+
+			statusSeen = true
+
 			n, err := parseUint(hf.ValueBytes())
 			if err != nil || n < 100 || n > 999 {
 				reject(errInvalidStatus)
@@ -1650,6 +1668,10 @@ func (c *Conn) readHeader(b []byte, res *fasthttp.Response) error {
 		} else {
 			res.Header.AddBytesKV(hf.KeyBytes(), hf.ValueBytes())
 		}
+	}
+
+	if invalid == nil && res != nil && first && !statusSeen {
+		invalid = errInvalidStatus
 	}
 
 	return invalid
